@@ -80,24 +80,39 @@ def classify_exc(e):
     return 'err fatal'
 
 
-def step_real(SimParam, M, D, dt, k, raw, oracle_bad, want_full=False):
+def step_real(SimParam, M, D, dt, k, raw, oracle_bad, want_full=False, timefor=3600, days=1):
     """Step the real SimParam k times. Returns the implementation's answer line for `trace dtype=0`
-    (and evaluates the calendar oracle on every state inside the year)."""
+    (and evaluates the calendar oracle on every state inside the year). `timefor` (the weather-file time step,
+    UWG.dtweather) and `days` are arguments of the real constructor that the clock must not depend on: when they
+    are varied (tie 5) the state right after construction is judged too and an exception of update_date for an
+    hour-dividing dt is an oracle failure (theorem no_timestep_error)."""
+    varied = (timefor != 3600 or days != 1)
+    extra = {'timefor': timefor, 'days': days} if varied else {}
     try:
         if raw:
             sp = SimParam(3600, 3600, M, D, 1)
             sp.dt = dt
         else:
-            sp = SimParam(dt, 3600, M, D, 1)
+            sp = SimParam(dt, timefor, M, D, days)
     except Exception as e:  # noqa: BLE001
         return classify_exc(e)
     h = 0
     t = doy0(M, D) * 86400
+    if varied:
+        st = state(sp)
+        tf = true_fields(t)
+        if st != tf[:5] and len(oracle_bad) < 5:
+            oracle_bad.append(dict({'M': M, 'D': D, 'dt': dt, 'k': 0, 'observed': list(st),
+                                    'expected': list(tf[:5])}, **extra))
     upd = sp.update_date
     for i in range(k):
         try:
             upd()
         except Exception as e:  # noqa: BLE001
+            if varied and t + dt < YEAR and len(oracle_bad) < 5:
+                oracle_bad.append(dict({'M': M, 'D': D, 'dt': dt, 'k': i + 1,
+                                        'observed': 'update_date raised %s: %s' % (type(e).__name__, str(e)[:80]),
+                                        'expected': list(true_fields(t + dt)[:5])}, **extra))
             return classify_exc(e) + ' at=%d' % (i + 1)
         st = state(sp)
         h = (h * 1000003 + pack(st, 0)) % HASH_P
@@ -105,26 +120,33 @@ def step_real(SimParam, M, D, dt, k, raw, oracle_bad, want_full=False):
         if t < YEAR and not raw:
             tf = true_fields(t)
             if st != tf[:5] and len(oracle_bad) < 5:
-                oracle_bad.append({'M': M, 'D': D, 'dt': dt, 'k': i + 1, 'observed': list(st),
-                                   'expected': list(tf[:5])})
+                oracle_bad.append(dict({'M': M, 'D': D, 'dt': dt, 'k': i + 1, 'observed': list(st),
+                                        'expected': list(tf[:5])}, **extra))
     st = state(sp)
     return 'ok digest=%d last=%s' % (h, fmt(st, model_daytype(st[2])))
 
 
-def sim_trace(M, D, nday, dt, epw, variant, lookups_bad):
+def sim_trace(M, D, nday, dt, epw, variant, lookups_bad, dtweather=None):
     """Driver-only run of the real simulate; returns ((protocol line, answer), steps observed) and appends
-    calendar-oracle failures (clock, day type, look-up indices, month used for the ground temperature)."""
+    calendar-oracle failures (clock, day type, look-up indices, month used for the ground temperature).
+    dtweather: the documented parameter UWG.dtweather (weather-file time step; None = the default 3600)."""
     try:
         with core.quiet():
-            model = simdriver.build_model(M, D, nday, dt, epw=epw)
+            model = simdriver.build_model(M, D, nday, dt, epw=epw, dtweather=dtweather)
     except Exception as e:  # noqa: BLE001 - a legal rural file must be accepted
         if len(lookups_bad) < 5:
             lookups_bad.append({'M': M, 'D': D, 'nday': nday, 'dt': dt, 'it': 0, 'epw_variant': variant,
+                                'dtweather': dtweather,
                                 'observed': 'generate raised %s: %s' % (type(e).__name__, str(e)[:120]),
                                 'expected_now': 'a model', 'expected_month_before_update': None})
         return ('trace M=%d D=%d dt=%d k=%d dtype=1' % (M, D, dt, nday * 86400 // dt), classify_exc(e)), 0
     res = simdriver.driver_only_run(model, check_forc=False)
     if res.error:
+        if dtweather is not None and len(lookups_bad) < 5:
+            lookups_bad.append({'M': M, 'D': D, 'nday': nday, 'dt': dt, 'it': len(res.steps) + 1,
+                                'epw_variant': variant, 'dtweather': dtweather,
+                                'observed': 'simulate raised %s: %s' % (res.error, res.error_msg),
+                                'expected_now': 'a complete run', 'expected_month_before_update': None})
         return ('trace M=%d D=%d dt=%d k=%d dtype=1' % (M, D, dt, nday * 86400 // dt),
                 'err %s' % res.error), 0
     h = 0
@@ -139,9 +161,11 @@ def sim_trace(M, D, nday, dt, epw, variant, lookups_bad):
             ok = ((mon, day, jul, sec, hour, dtyp) == tf and (trd, trh) == (tf[5] - 1, tf[4])
                   and (scd, sch) == (tf[5] - 1, tf[4]) and tsm == before[0])
             if not ok and len(lookups_bad) < 5 and not any(
-                    (b['epw_variant'], b['M'], b['D'], b['nday'], b['dt']) == (variant, M, D, nday, dt)
+                    (b['epw_variant'], b.get('dtweather'), b['M'], b['D'], b['nday'], b['dt']) ==
+                    (variant, dtweather, M, D, nday, dt)
                     for b in lookups_bad):                    # one witness (the first step) per run
                 lookups_bad.append({'M': M, 'D': D, 'nday': nday, 'dt': dt, 'it': it, 'epw_variant': variant,
+                                    'dtweather': dtweather,
                                     'observed': list(s), 'expected_now': list(tf),
                                     'expected_month_before_update': before[0]})
     last = res.steps[-1]
@@ -314,19 +338,81 @@ def run(chk):
     chk.extra_cov['c04_rural_file_variants'] = {'files': [f[0] for f in files], 'runs_per_group': vbranches,
                                                 'steps': nv_steps}
 
+    # ---- tie 5: the weather-file time step and the run length are not inputs of the clock ----------
+    # SimParam(dt, timefor, M, DAY, days): `timefor` (UWG.dtweather, a documented parameter; 3600 in every shipped
+    # example) and `days` size the window of rural rows, nothing else. The model clock has neither as an input, so
+    # the SAME Lean trace must come out whatever they are.
+    timefors = list(DIVISORS) + [7200, 10800, 14400, 21600, 43200, 86400, 1000, 2700, 5400, 1800.0, 900.0, 450.5]
+    cases, tf_branches = [], {}
+    dts5 = [d for d in DIVISORS if d >= (100 if not thorough else 20)]
+    for tfor in timefors:
+        for r in range(2 if not thorough else 6):
+            if r % 3 == 0:                     # last two days of a month (roll-over inside the trace)
+                M = rng.randint(1, 12)
+                D = MDAYS[M - 1] - rng.randint(0, 1)
+            elif r % 3 == 1:
+                M, D = rng.choice(dates()[1:])
+            else:
+                M, D = (1, 1) if r == 2 else rng.choice(dates())
+            dt = rng.choice(dts5)
+            span = min(rng.randint(86400, 2 * 86400 + 43200), YEAR - doy0(M, D) * 86400)
+            k = span // dt
+            days = rng.choice([1, 1, 2, 3, 7, 31])
+            cases.append(('trace M=%d D=%d dt=%d k=%d dtype=0' % (M, D, dt, k),
+                          step_real(SimParam, M, D, dt, k, False, oracle_bad, timefor=tfor, days=days)))
+            n_oracle += k + 1
+            kind = ('divides 3600' if 3600 % tfor == 0 else 'multiple of 3600' if tfor % 3600 == 0 else 'other') + \
+                (', dt > timefor' if dt > tfor else ', dt = timefor' if dt == tfor else ', dt < timefor')
+            tf_branches[kind] = tf_branches.get(kind, 0) + 1
+    chk.correspond('SimParam(timefor,days)~Clock', 'C04', cases,
+                   rule='real SimParam(dt, timefor, M, DAY, days) for EVERY weather-file time step timefor dividing '
+                        '3600 (45 values), 2-24-hourly ones (7200 .. 86400), values dividing neither (1000, 2700, '
+                        '5400, 450.5) and float spellings, x start dates (month ends, 1 January, random) x run '
+                        'lengths 1..31 days x random hour-dividing dt (larger than, equal to and smaller than timefor), '
+                        'advanced across 1-2 midnights, vs the SAME Lean Clock trace (the model has no timefor / '
+                        'days input); the state right after construction and every state after an update is also '
+                        'compared with datetime(2023); update_date must not raise',
+                   classify=lambda line, impl: impl.split(' ')[0] + (' ' + impl.split(' ')[1] if impl.startswith('err') else ''))
+    chk.extra_cov['c04_timefor_family'] = {'timefor values': len(timefors), 'cases by kind': tf_branches}
+
+    # ---- tie 6: dtweather != 3600 through generate() + the real simulate loop -------------------------
+    tws = [1800, 900] + rng.sample([d for d in DIVISORS if 100 <= d < 3600 and d not in (1800, 900)],
+                                   2 if not thorough else 10)
+    vcases6 = []
+    for i, tw in enumerate(tws):
+        nday = rng.randint(2, 3)
+        room = 8760 * tw // 86400 - nday            # the window (timeDay rows per day) must lie inside the file
+        j0 = 0 if i == 1 else rng.randint(1, room - 1)
+        M, D = dates()[j0]
+        dt = rng.choice([d for d in DIVISORS if d >= (100 if not thorough else 30)])
+        case, k = sim_trace(M, D, nday, dt, None, None, lookups_bad, dtweather=tw)
+        vcases6.append(case)
+        n_steps += k
+    chk.correspond('simulate(dayType,clock)~Clock+dayType with dtweather != 3600', 'C04', vcases6,
+                   rule='driver-only runs of the REAL generate + simulate with the documented parameter dtweather set '
+                        'to 1800, 900 and random other divisors of 3600 (every shipped example has 3600), random '
+                        'starts inside the part of the file such a window can address (one on 1 January), 2-3 days, '
+                        'random hour-dividing dtsim: clock fields and dayType at every step vs the SAME Lean trace; '
+                        'the calendar oracle (clock, day type, schedule / traffic indices, ground-temperature month) '
+                        'is evaluated on every step',
+                   classify=lambda line, impl: impl.split(' ')[0])
+
     # ---- the property's own oracle on the implementation ----------------------------------------
     for b in oracle_bad[:3]:
         chk.violation('impl-violation', 'SimParam clock vs true calendar (datetime 2023)',
-                      case={k: b[k] for k in ('M', 'D', 'dt', 'k')}, observed=b['observed'],
-                      expected=b['expected'],
-                      how='SimParam(dt,3600,M,D,1); k x update_date(); compare (month, day, julian, '
-                          'secDay, hourDay) with datetime(2023,1,1)+timedelta(seconds=doy0*86400+k*dt)')
+                      case={k: b[k] for k in ('M', 'D', 'dt', 'k', 'timefor', 'days') if k in b},
+                      observed=b['observed'], expected=b['expected'],
+                      how='SimParam(dt,timefor (3600 unless given),M,D,days (1 unless given)); k x update_date(); '
+                          'compare (month, day, julian, secDay, hourDay) with '
+                          'datetime(2023,1,1)+timedelta(seconds=doy0*86400+k*dt)')
     chk.direct('calendar-oracle(SimParam)', n_oracle, n_oracle,
-               'every state of ties 1-2 inside the year compared with Python datetime (2023) directly',
+               'every state of ties 1-2 and 5 inside the year compared with Python datetime (2023) directly (tie 5: '
+               'also the state right after construction, for every weather-file time step timefor and run length)',
                mismatches=len(oracle_bad))
     for b in lookups_bad[:3]:
         chk.violation('impl-violation', 'simulate: clock / day type / look-up indices vs true calendar',
-                      case={k: b.get(k) for k in ('M', 'D', 'nday', 'dt', 'it', 'epw_variant')}, observed=b['observed'],
+                      case={k: b.get(k) for k in ('M', 'D', 'nday', 'dt', 'it', 'epw_variant', 'dtweather')},
+                      observed=b['observed'],
                       expected={'now': b['expected_now'],
                                 'month_before_update': b['expected_month_before_update']},
                       how='driver-only run of UWG.simulate (harness/simdriver.py) with these parameters')
@@ -335,7 +421,8 @@ def run(chk):
                'start + it*dt; traffic schedule and building schedule are indexed with (true day type - 1, '
                'true hour); ground temperature with the true month at start + (it-1)*dt (looked up before '
                'the clock advances); evaluated on the shipped file AND on every rural-file variant of tie 4 '
-               '(epw_variant in the witness: header cells / 8784-row files the calendar must not depend on)',
+               '(epw_variant in the witness: header cells / 8784-row files the calendar must not depend on) AND on '
+               'the runs of tie 6 (dtweather in the witness)',
                mismatches=len(lookups_bad))
     chk.assumptions.append('secDay becomes the float 0. after the first midnight; integers < 2^53 are '
                            'exact in doubles, canonicalised with int() (checked integral)')
@@ -351,13 +438,14 @@ def replay(chk, path):
     bad = []
     if 'k' in c:
         from uwg.simparam import SimParam
-        step_real(SimParam, c['M'], c['D'], c['dt'], c['k'], False, bad)
+        step_real(SimParam, c['M'], c['D'], c['dt'], max(c['k'], 1), False, bad, timefor=c.get('timefor', 3600),
+                  days=c.get('days', 1))
     elif 'it' in c:
         epw = None
         if c.get('epw_variant'):
             import s1_util as S
             epw = S.write_variant(chk.work(), S.load_epw(simdriver.epw_path()), c['epw_variant'], 'rp_')
-        model = simdriver.build_model(c['M'], c['D'], c['nday'], c['dt'], epw=epw)
+        model = simdriver.build_model(c['M'], c['D'], c['nday'], c['dt'], epw=epw, dtweather=c.get('dtweather'))
         res = simdriver.driver_only_run(model, check_forc=False)
         t0 = doy0(c['M'], c['D']) * 86400
         for s in res.steps:
